@@ -76,6 +76,11 @@ func runC01(r *simkit.Run) {
 			ids = append(ids, []byte(fmt.Sprintf("id-%d", i)))
 		}
 	}
+	if !structured && nid >= 2 && c.Chance(300, "leading-zero-twin") {
+		// two identities that are equal as numbers and differ as byte strings
+		ids[1] = append([]byte{0}, ids[0]...)
+		r.Probe("leading-zero-twin-identities")
+	}
 	sort.Slice(ids, func(i, j int) bool { return bytes.Compare(ids[i], ids[j]) < 0 })
 	nd.db.SetRowOrder(func(k int, sql string) []int {
 		r.Probe("row-permutations")
